@@ -56,6 +56,7 @@ ReindexOp ==
 ContOp ==
     \E t \in {"junction", "pipe", "valve", "sink"}, st \in {0, 3} :
         Tool(Relabel(net, t, ContLookup(TblLabs(net, t), st)), [op |-> "continuous", tbl |-> t, start |-> st])
+ContAllOp == \E st \in {0, 3} : Tool(ContAll(net, st), [op |-> "continuous_all", tbl |-> "all", start |-> st])
 DropJOp == \E S \in SUBSET JLabs(net) : S # {} /\ Cardinality(S) <= 2 /\
         Tool(DropJunctions(net, S), [op |-> "drop_junctions", js |-> S])
 DropElOp == \E S \in SUBSET JLabs(net) : S # {} /\ Cardinality(S) <= 2 /\
@@ -113,7 +114,7 @@ Finish == /\ EmitOn /\ Len(hist) = MaxOps
           /\ PrintT(ToJson([vp |-> "EDIT", base |-> base, hist |-> hist])) /\ UNCHANGED vars
 
 Next == \/ /\ Len(hist) < MaxOps
-           /\ \/ ("reindex" \in OpKinds /\ (ReindexOp \/ ContOp))
+           /\ \/ ("reindex" \in OpKinds /\ (ReindexOp \/ ContOp \/ ContAllOp))
               \/ ("drop" \in OpKinds /\ (DropJOp \/ DropElOp \/ DropPOp))
               \/ ("fuse" \in OpKinds /\ FuseOp)
               \/ ("select" \in OpKinds /\ SelectOp)
@@ -127,6 +128,6 @@ InvRefOK == RefOK(net)
 InvUnique == LabelsUnique(net)
 InvPipeValves == \A v \in ERows(net) : IsPipeValve(v) => PipeValveAttached(net, v)
 (* relabelling keeps every element (by identity) and changes labels only *)
-RelabelKeepsIds == [][last' \in {"reindex", "continuous"} => RowIds(net') = RowIds(net)]_vars
+RelabelKeepsIds == [][last' \in {"reindex", "continuous", "continuous_all"} => RowIds(net') = RowIds(net)]_vars
 Emit == EmitOn => PrintT(ToJson([vp |-> "EDIT", base |-> base, hist |-> hist]))
 =============================================================================
